@@ -75,7 +75,10 @@ const (
 	sLD    = 48 // s48..s63: SMEM destinations
 	sTMP   = 64 // s64..s67 scratch
 	sDIV   = 68 // pair 68,69: divergent-loop saved exec
-	nSGPR  = 80
+	sLLlo  = 12 // s12..s15: long-lived values (written first, dumped last)
+	sLLhi  = 84 // s84..s95: long-lived values in high registers
+	nLLhi  = 12
+	nSGPR  = 96
 	vX     = 45
 	vY     = 46
 	vZ     = 47
@@ -93,7 +96,13 @@ const (
 	vCNT   = 44
 	vRIN   = 48 // pair: address of the reversed work-item's IN region
 	vRIOFF = 50
+	vLLlo  = 52  // v52..v55: long-lived values
+	vLLhi  = 248 // v248..v251: long-lived values in high registers (code objects declaring 256 VGPRs)
 	nVGPR  = 56
+	// bytes appended to every OUT region for the dump of the long-lived
+	// registers: 4 dwords into which the 16 scalar ones are folded, 4 + 4
+	// vector dwords
+	llDump = 48
 	ldsPer = 32 // LDS bytes per work-item slot
 )
 
@@ -109,8 +118,11 @@ type kb struct {
 	oStr     int // bytes per work-item in OUT
 	iStr     int // bytes per work-item in IN
 	iShift   int
-	rev      bool // compute the reversed-region address (xkernel chains)
-	declVGPR int  // VGPRs per work-item the code object declares (>= nVGPR)
+	rev      bool     // compute the reversed-region address (xkernel chains)
+	declVGPR int      // VGPRs per work-item the code object declares (>= nVGPR)
+	oBody    int      // end of the body area of an OUT region (= oStr - llDump)
+	lean     bool     // no temporaries: prologue, long-lived values, body, dump
+	tail     []string // operations placed right before s_endpgm, not waited for
 	// ABI register numbers
 	rKA, rDisp, rWGX, rWGY, rWGZ, rCnt int
 	nMem                               int
@@ -126,7 +138,7 @@ func pow2ceil(n int) int {
 }
 
 func newKB(arch g.Arch, v5 bool, l Launch, abi ABI, oStr, iStr, iShift int) *kb {
-	k := &kb{arch: arch, v5: v5, l: l, abi: abi, p: g.NewProgram(arch), oStr: oStr, iStr: iStr, iShift: iShift, feat: map[string]bool{}}
+	k := &kb{arch: arch, v5: v5, l: l, abi: abi, p: g.NewProgram(arch), oStr: oStr, oBody: oStr - llDump, iStr: iStr, iShift: iShift, feat: map[string]bool{}}
 	// register layout as amd/emu/computeunit.go initWfRegs assigns it
 	r := 0
 	k.rDisp = -1
@@ -201,6 +213,7 @@ func (k *kb) add64(d, a int, c int) {
 func (k *kb) prologue() {
 	ka := g.SRange(k.rKA, 2)
 	k.add(g.Nop(0))
+	k.initLongLived()
 	k.add(g.SMEMLoadImm(g.OpSLoadDwordx4, g.SRange(sOUT, 4), ka, 0))
 	k.add(g.SMEMLoadImm(g.OpSLoadDwordx4, g.SRange(sTAB, 4), ka, 16))
 	k.add(g.SMEMLoadImm(g.OpSLoadDwordx2, g.SRange(sC0+2, 2), ka, 32))
@@ -255,6 +268,41 @@ func (k *kb) prologue() {
 		k.vop2(opVAddU32, g.V(vRIN), g.S(sIN), g.V(vRIOFF))
 		k.vop1(opVMov, g.V(vRIN+1), g.S(sIN+1))
 		k.vop2(opVAddcU32, g.V(vRIN+1), g.Imm(0), g.V(vRIN+1))
+	}
+}
+
+func (k *kb) hiVGPR() bool { return k.declVGPR >= 256 }
+
+// initLongLived writes the long-lived registers as the very first thing a
+// wavefront does: SALU/VALU values derived from the work-group / work-item
+// ids. Nothing in the body touches them; the epilogue dumps them. (A register
+// slot recycled from a retired wavefront must not be disturbed by anything
+// that wavefront left in flight.)
+func (k *kb) initLongLived() {
+	mix := func(i int) uint32 { return uint32(0x9e3779b1*uint32(i+1)) | 1 }
+	src := []int{k.rWGX, k.rWGY, k.rWGZ}
+	regs := []int{}
+	for i := 0; i < 4; i++ {
+		regs = append(regs, sLLlo+i)
+	}
+	for i := 0; i < nLLhi; i++ {
+		regs = append(regs, sLLhi+i)
+	}
+	for i, r := range regs {
+		k.sop2(opSMulI32, g.S(r), g.S(src[i%3]), g.Lit(mix(i)))
+		if i%2 == 0 {
+			k.sop2(16 /*s_xor_b32*/, g.S(r), g.S(r), g.Lit(mix(i+40)))
+		}
+	}
+	for i := 0; i < 4; i++ {
+		k.vop2(8 /*v_mul_u32_u24*/, g.V(vLLlo+i), g.Lit(mix(i+80)&0xffff|1), g.V(0))
+		k.vop2(opVXor, g.V(vLLlo+i), g.Lit(mix(i+90)), g.V(vLLlo+i))
+	}
+	if k.hiVGPR() {
+		for i := 0; i < 4; i++ {
+			k.vop2(8, g.V(vLLhi+i), g.Lit(mix(i+100)&0xffff|1), g.V(0))
+			k.vop2(opVXor, g.V(vLLhi+i), g.Lit(mix(i+110)), g.V(vLLhi+i))
+		}
 	}
 }
 
@@ -346,17 +394,117 @@ func (k *kb) store(op int, data g.Operand, off int, form int) {
 const outBodyOff = 96
 
 func (k *kb) epilogue() {
-	for i := 0; i < nVT; i += 4 {
-		k.store(g.OpFlatStoreDwordx4, g.VRange(vT0+i, 4), 4*i, 0)
-	}
-	for i := 0; i < nST; i += 4 {
-		for j := 0; j < 4; j++ {
-			k.vop1(opVMov, g.V(vL0+j), g.S(sT0+i+j))
+	if !k.lean {
+		for i := 0; i < nVT; i += 4 {
+			k.store(g.OpFlatStoreDwordx4, g.VRange(vT0+i, 4), 4*i, 0)
 		}
-		k.store(g.OpFlatStoreDwordx4, g.VRange(vL0, 4), 48+4*i, 0)
+		for i := 0; i < nST; i += 4 {
+			for j := 0; j < 4; j++ {
+				k.vop1(opVMov, g.V(vL0+j), g.S(sT0+i+j))
+			}
+			k.store(g.OpFlatStoreDwordx4, g.VRange(vL0, 4), 48+4*i, 0)
+		}
 	}
-	k.add(g.WaitcntAll())
+	// long-lived registers: 4 low + 12 high scalar ones folded into 4 dwords
+	// (register i goes into dword i%4), 4 low (+ 4 high) vector ones
+	ll := k.oBody
+	regs := []int{sLLlo, sLLlo + 1, sLLlo + 2, sLLlo + 3}
+	for i := 0; i < nLLhi; i++ {
+		regs = append(regs, sLLhi+i)
+	}
+	for i, r := range regs {
+		if i < 4 {
+			k.vop1(opVMov, g.V(vL0+i), g.S(r))
+		} else {
+			k.vop2(opVXor, g.V(vL0+i%4), g.S(r), g.V(vL0+i%4))
+		}
+	}
+	k.store(g.OpFlatStoreDwordx4, g.VRange(vL0, 4), ll, 0)
+	k.store(g.OpFlatStoreDwordx4, g.VRange(vLLlo, 4), ll+16, 0)
+	if k.hiVGPR() {
+		k.store(g.OpFlatStoreDwordx4, g.VRange(vLLhi, 4), ll+32, 0)
+	}
+	k.tailOps()
 	k.add(g.Endpgm())
+}
+
+func (k *kb) hasTail(name string) bool {
+	for _, t := range k.tail {
+		if t == name {
+			return true
+		}
+	}
+	return false
+}
+
+// tabColdOff is where the per-work-group cold lines of the TAB buffer start.
+const tabColdOff = 1024
+
+// tailOps: what a kernel does between its last dump store and s_endpgm.
+// Default: s_waitcnt 0. "nowait": nothing (s_endpgm itself has to cover the
+// stores). The dead operations are legal and race-free: their destination
+// registers are dead (already dumped) and nothing waits for them - the
+// hardware (and the timing model) must keep the wavefront's registers until
+// they have returned.
+func (k *kb) tailOps() {
+	dead := k.hasTail("smem") || k.hasTail("flat_ld") || k.hasTail("flat_st") || k.hasTail("lds")
+	if !dead {
+		if !k.hasTail("nowait") {
+			k.add(g.WaitcntAll())
+		}
+		return
+	}
+	// the dump stores are acknowledged first, so that only the dead
+	// operations are outstanding at s_endpgm
+	k.add(g.Waitcnt(0, 7, 15))
+	// cold line of this work-group: TAB + tabColdOff + 64 * linear group index
+	k.sop2(28 /*s_lshl_b32*/, g.S(sTMP+2), g.S(sWG), g.Imm(6))
+	k.sop2(opSAddU32, g.S(sTMP+2), g.S(sTMP+2), immOrLit(tabColdOff))
+	k.sop2(opSAddU32, g.S(sTMP+2), g.S(sTAB), g.S(sTMP+2))
+	k.sop2(4 /*s_addc_u32*/, g.S(sTMP+3), g.S(sTAB+1), g.Imm(0))
+	cold := g.SRange(sTMP+2, 2)
+	if k.hasTail("flat_ld") || k.hasTail("flat_st") {
+		k.vop1(opVMov, g.V(vA0), g.S(sTMP+2))
+		k.vop1(opVMov, g.V(vA0+1), g.S(sTMP+3))
+	}
+	if k.hasTail("lds") {
+		k.lds = true
+		k.nMem++
+		k.add(g.DSWrite(g.OpDSWriteB32, g.V(vLDS), g.V(vLLlo), 0))
+	}
+	if k.hasTail("flat_st") {
+		// every wavefront of the group stores the group index (the same value
+		// from every lane) into the last dword of the group's cold line, which
+		// nothing reads
+		k.nMem++
+		k.vop1(opVMov, g.V(vCNT), g.S(sWG))
+		if k.arch == g.CDNA3 {
+			k.add(g.GlobalStore(g.OpFlatStoreDword, g.VRange(vA0, 2), g.V(vCNT), g.Off, 60))
+		} else {
+			k.add64(vA0+2, vA0, 60)
+			k.add(g.FlatStore(g.OpFlatStoreDword, g.VRange(vA0+2, 2), g.V(vCNT)))
+		}
+	}
+	if k.hasTail("flat_ld") {
+		k.nMem++
+		dst := g.VRange(vLLlo, 4)
+		if k.hiVGPR() {
+			dst = g.VRange(vLLhi, 4)
+		}
+		if k.arch == g.CDNA3 {
+			k.add(g.GlobalLoad(g.OpFlatLoadDwordx4, dst, g.VRange(vA0, 2), g.Off, 16))
+		} else {
+			k.add64(vL0, vA0, 16)
+			k.add(g.FlatLoad(g.OpFlatLoadDwordx4, dst, g.VRange(vL0, 2)))
+		}
+	}
+	if k.hasTail("smem") {
+		k.nMem += 3
+		k.add(g.SMEMLoadImm(g.OpSLoadDwordx4, g.SRange(sLLhi+4, 4), cold, 0))
+		k.add(g.SMEMLoadImm(g.OpSLoadDwordx2, g.SRange(sLLhi+8, 2), cold, 32))
+		k.add(g.SMEMLoadImm(g.OpSLoadDword, g.S(sLLhi+11), cold, 48))
+		k.add(g.SMEMLoadImm(g.OpSLoadDwordx4, g.SRange(sLLlo, 4), cold, 16))
+	}
 }
 
 // codeObject assembles the program into a hand-built code object.
